@@ -4,14 +4,26 @@
 import json, subprocess
 
 CLAIMS = {
- "C10": ("flag/ownership logic around compression is the identity for clients given the assumed QuickLZ codec relation; value hash taken from the uncompressed bytes; safe decompress entry points and C<->Go round trips as bounded stand-ins",
-         "assumed: QuickLZ codecs (C and Go) related through an uninterpreted decompression function; CArray.Alloc (cgo malloc); bounded (not proof): cross round trips, safe-decompress fuzz. Not yet under contract: the read paths that call Decompress (GetRecordByOffset) and checkAndSet's ordering of CalcValueHash/TryCompress"),
- "C15": ("path digits, bucket id = leading digits, InitTree derived configuration for 1/16/256 buckets, path parsing; every depth 0..2 enumerated",
-         "not yet under contract: the per-operation bucket state gate in HStore.Get/Set/Incr and directory naming (string formatting)"),
+ "C01": ("version arithmetic for every int32 pair; Bucket.set/get/incr and HStore.Get/Incr glue over abstract tree and log views: a read returns the record the tree points at with the tree's version, bytes and client flags equal to what was appended at that position; readRecordAt accepts only intact records (shared with C09)",
+         "partial chain: Bucket.checkAndSet (the step that applies the version arithmetic to the tree) is under contract but NOT part of the check (about 10% of its obligations stay undecided within practical solver time); the tree (HTree.get/set), the data store (AppendRecord/GetRecordByPos) and the hint manager enter through ASSUMED interface contracts over ghost views; scope: keys without hash collisions; StorageClient/protocol status mapping not under contract"),
+ "C08": ("leaf level of the merkle tree: item codec round trip, key-hash truncation and reconstruction from the node path for every path length (pins KHASH_LENS), leaf Set/Get/Remove against the byte sequence for key-hash lengths 5..8, leaf-node (count, hash) delta contracts of setToLeaf/remvoeFromLeaf",
+         "not under contract: inner-node aggregation (updateNodes, recursive), listing (listDir/ListDir), upper tree, dump/load; the C leaf memory (ToBytes/enlarge) and findInBytes (C branch) are assumed, the Go branch of findInBytes is verified on a verbatim ghost copy; history independence rests on the map-sum equations proved in Lean (lemmas/MapSum.lean) applied to the delta contracts"),
+ "C09": ("record sizes/padding, header codec round trip, WriteRecord.append byte-exact stream layout incl. zero padding, readRecordAt returns a record iff the file bytes at the offset are an intact record (sizes admissible, extent inside the file, stored CRC equal to the CRC of header[4:24]+key+value, via a verified CRC-fold lemma), sequential Next/nextValid return the FIRST intact 256-aligned record at or after the position, its bytes, and continue right behind its padding",
+         "assumed: ghost file system (os.File/bufio/io models), C CRC loop (table proved, step lemma proved, loop bounded-checked); I/O errors other than end-of-file are excluded for the scanner (reliable_io)"),
+ "C10": ("flag/ownership logic around compression is the identity for clients given the assumed QuickLZ codec relation; value hash taken from the uncompressed bytes; safe decompress entry points and C<->Go round trips (incl. matches at the format's offset/length thresholds) as bounded stand-ins",
+         "assumed: QuickLZ codecs (C and Go) related through an uninterpreted decompression function; CArray.Alloc (cgo malloc); bounded (not proof): cross round trips, safe-decompress fuzz. Not under contract: the read paths that call Decompress (GetRecordByOffset), hint rebuild (buildHintFromData)"),
+ "C12": ("per-call contribution contracts of the buffer counters: ResourceLimiter arithmetic, CArray alloc/free/copy, TryCompress/Decompress/Copy allocation balance, readRecordAt and the scanner, Bucket.get (a returned payload is charged exactly once, nothing else), Bucket.incr and HStore.Incr (GetData returns to its old value), Bucket.set (SetData -> FlushData move)",
+         "not under contract: the protocol layer (Request.Read/Process, ServeOnce, request tokens), StorageClient, Bucket.checkAndSet (contract exists, not in the check), dataChunk.flush; AppendRecord/GetRecordByPos accounting clauses are assumed (read off the code); counters are treated sequentially (atomics as plain adds); environment failures (refused allocation) are outside the clauses"),
+ "C13": ("hint buffer: representation invariant preserved, whole-view postcondition (every other (hash,key) pair reads back unchanged, a refused Set changes nothing), Set/Get composition lemmas; collision table compareAndSet/get whole-view postconditions (newest position wins unless GC relocates; other entries untouched); merge writer reports every member of a same-hash group",
+         "not under contract: Bucket.get's collision branch (verified only in the no-collision scope), GC's use of collision information, restart (tombstone replay, design finding F11 not re-derived)"),
+ "C14": ("hint file header and item codec (writer appends exactly the item encoding, reader decodes the item at its offset), lookup uses the reader in sync with its logical offset and returns only an item with exactly the wanted (hash,key), comparison orders (byKeyHash, mergeHeap, Position.CmpKey monotone), merge writer flush",
+         "not under contract: HintBuffer.Dump ordering, index-row well-formedness and completeness of get (item found iff present), merge() main loop, mergeWriter.write (contract exists, one conjunct at the solver limit, not in the check); sort/heap are library contracts"),
+ "C15": ("path digits, bucket id = leading digits, InitTree derived configuration for 1/16/256 buckets, path parsing; every depth 0..2 enumerated; HStore.Get/Incr route to exactly the bucket named by the leading digits and a bucket that is not READY answers a miss and touches nothing",
+         "not under contract: HStore.Set gate (goes through checkAndSet), route table decoding (config.Server.Decode), NewHStore's choice of buckets to open, upper-level listing, directory naming (string formatting)"),
  "C16": ("fnv1a (both copies), value hash, key-hash composition, CRC-32 table (256 ground obligations) and table step lemma proved for all inputs",
          "assumed + bounded differential: murmur3 library, the C CRC loop (crc32.write)"),
- "C17": ("GC range resolution (start/end clipping, head chunk excluded, non-empty ends, age limit against a ghost clock), admission: refused/pretend change nothing and spawn nothing, accepted => exactly one spawn and the bucket registered before return",
-         "assumed: lock semantics (sequential view), getFirstRecTs file I/O, time as a non-decreasing ghost clock. Not under contract: the body of GCMgr.gc (which files the pass rewrites)"),
+ "C17": ("GC range resolution (start/end clipping, head chunk excluded, non-empty ends, age limit against a ghost clock), admission: refused/pretend change nothing and spawn nothing, accepted => exactly one spawn and the bucket registered before return; CancelGC frame",
+         "assumed: lock semantics (sequential view), getFirstRecTs file I/O, time as a non-decreasing ghost clock. Not under contract: the body of GCMgr.gc (which files the pass rewrites), the HTTP handler that supplies the arguments"),
 }
 NA = {
  "C04": "quantifies over goroutine interleavings; the contract engine verifies one sequential execution of one function and has no thread/permission reasoning (DESIGN.md §3 C04)",
@@ -19,7 +31,13 @@ NA = {
  "C06": "quantifies over crash points; needs crash-Hoare logic with a verified recovery procedure, which a per-function contract engine cannot express (DESIGN.md §3 C06)",
  "C07": "quantifies over crash points during GC; same reason as C06 (DESIGN.md §3 C07)",
 }
-PENDING = "contract chain not completed: the top-level obligations of this property are not all under contract and discharged on the committed tree yet (DESIGN.md §7 claim rule)"
+PENDING = "contract chain not completed: the top-level obligations of this property are not under contract (DESIGN.md §0 and §3 say what exists and what is missing)"
+NA.update({
+ "C02": "not decided: restart/recovery (Bucket.open, hint replay, tree dump/load, directory listing) is not under contract; only the pieces shared with C09/C14 (record scanner, hint codec) are verified — contract chain not completed (DESIGN.md §3 C02)",
+ "C03": "not decided: GCMgr.gc (the keep/drop decision and relocation step) is not under contract; only admission/range resolution (C17) and the leaf/collision building blocks are verified — contract chain not completed (DESIGN.md §3 C03)",
+ "C11": "not decided: the protocol layer (memcache.Request.Read/Process, ServerConn.ServeOnce) is not under contract; the engine's panic/recover paths and string-level reasoning were not reached — contract chain not completed (DESIGN.md §3 C11)",
+ "C18": "not decided: same gap as C03 (GCMgr.gc not under contract) — contract chain not completed (DESIGN.md §3 C18)",
+})
 
 props = [json.loads(l) for l in open('/verif/properties.jsonl')]
 checks, na = [], []
